@@ -201,3 +201,18 @@ impl FileDbInner {
         Ok(())
     }
 }
+
+#[cfg(abyssiniandb_verif)]
+pub mod verif {
+    //! verification hooks: re-exports of crate-private items (guard: --cfg abyssiniandb_verif).
+    pub use super::dbxxx::verif_probe as dbxxx;
+    pub use super::htx::verif_probe as htx;
+    pub use super::htx::HtxFile;
+    pub use super::key::verif_probe as key;
+    pub use super::key::{KeyFile, KeyPiece};
+    pub use super::piece::PieceMgr;
+    pub use super::semtype::*;
+    pub use super::val::verif_probe as val;
+    pub use super::val::{ValueFile, ValuePiece};
+    pub use super::vfile::VarFile;
+}
